@@ -1,5 +1,5 @@
 (* C11 -- title metadata: every record covered by an info record is hash-protected; word codecs. *)
-From Pyctr Require Import Base.Prelude Base.ListExt Base.PyInt Base.PySlice Base.Sweep Model.Tmd Proofs.TmdProofs.
+From Pyctr Require Import Base.Prelude Base.ListExt Base.PyInt Base.PySlice Base.Sweep Model.Tmd Model.TmdSer Proofs.TmdProofs Proofs.TmdSerProofs.
 From Dyn Require Import Gen_tmd.
 
 Section C11.
@@ -25,7 +25,30 @@ Proof. exact (tmd_tamper H). Qed.
 Theorem C11_record_injective : forall a b, full a -> full b -> ser_chunk a = ser_chunk b -> a = b.
 Proof. exact ser_chunk_inj. Qed.
 
+(* Parse then serialise reproduces the input bytes: for every byte string that is a well-formed TMD (exactly the announced
+   length, zero signature padding, non-zero info records first, chunk type words within the bits the object keeps, header
+   hash = hash of the info block), whatever the values of all other fields, with or without verification. *)
+Theorem C11_bytes_of_load : forall v raw t,
+  bytes_ok raw -> wf_bytes H raw -> tmd_load H v raw = Ok t -> ser_obj H (obj_of t) = Ok raw.
+Proof. exact (tmd_bytes_of_load H). Qed.
+
+(* Serialise then parse reproduces an equal object: for every object that load returns from a file holding all announced
+   chunk records (not only the well-formed ones: gaps between info records, stray type bits, non-zero padding are allowed),
+   its serialisation loads, under the same verification mode, to an object with equal fields.  Assumes only that the hash
+   function returns 32 bytes. *)
+Theorem C11_load_of_bytes : (forall x, len (H x) = 32) -> forall v raw t,
+  bytes_ok raw -> complete raw -> tmd_load H v raw = Ok t ->
+  exists b t', ser_obj H (obj_of t) = Ok b /\ tmd_load H v b = Ok t' /\ obj_of t' = obj_of t.
+Proof. intros Hlen. exact (tmd_load_of_bytes H Hlen). Qed.
+
 End C11.
+
+(* the hypotheses of both round-trip theorems hold for a concrete TMD with one content and one info record *)
+Example C11_roundtrip_nonvacuous :
+  bytes_ok raw0 /\ wf_bytes H0 raw0 /\ complete raw0 /\ (forall x, len (H0 x) = 32) /\
+  is_ok (tmd_load H0 true raw0) = true /\
+  (do t <- tmd_load H0 true raw0; Ok (length (t_infos t), length (t_chunks t))) = Ok (1%nat, 1%nat).
+Proof. exact tmd_roundtrip_nonvacuous. Qed.
 
 (* title-version and content-type words (regenerated kernels; complete sweeps) *)
 Definition tv_check (w : Z) : bool :=
@@ -54,5 +77,7 @@ Qed.
 
 Print Assumptions C11_tamper.
 Print Assumptions C11_record_injective.
+Print Assumptions C11_bytes_of_load.
+Print Assumptions C11_load_of_bytes.
 Print Assumptions C11_version_word.
 Print Assumptions C11_type_flags.
